@@ -1082,6 +1082,14 @@ func main() {
 		}
 		fmt.Fprintf(&sb, "  (%d, %q)%s\n", i, s, sep)
 	}
+	sb.WriteString("]\n\n/-- every graph, with the symbol id of its function (for facts quantified over the whole package) -/\ndef allGraphs : List (Nat × Graph) := [\n")
+	for i, gn := range gnames {
+		sep := ","
+		if i == len(gnames)-1 {
+			sep = ""
+		}
+		fmt.Fprintf(&sb, "  (%d, g_%s)%s\n", x.syms[gn], lname(gn), sep)
+	}
 	sb.WriteString("]\nend BB.Gen.Skel\n")
 	os.MkdirAll(out, 0o755)
 	writeIfChanged(filepath.Join(out, "Access.lean"), x.accessTable())
@@ -1459,6 +1467,7 @@ func (x *extractor) accessTable() string {
 	}
 	type edge struct{ h, l, f string }
 	edgeSet := map[edge]bool{}
+	reentrant := map[edge]bool{}
 	for _, g := range x.graphs {
 		e := entry[g.name]
 		if e == nil {
@@ -1499,6 +1508,11 @@ func (x *extractor) accessTable() string {
 				for h := range ls {
 					if h != l {
 						edgeSet[edge{h, l, g.name}] = true
+					} else {
+						// a blocking acquisition of a lock that is already (must-)held at this node — directly or inside a
+						// callee: self-deadlock for a Mutex; for an RWMutex read lock a deadlock as soon as a writer queues
+						// between the two acquisitions
+						reentrant[edge{h, l, g.name}] = true
 					}
 				}
 			}
@@ -1524,6 +1538,24 @@ func (x *extractor) accessTable() string {
 			sep = ""
 		}
 		fmt.Fprintf(&sb, "  (%d, %d, %d)%s  -- %s -> %s in %s\n", x.sym(e.h), x.sym(e.l), x.sym(e.f), sep, e.h, e.l, e.f)
+	}
+	var re []edge
+	for e := range reentrant {
+		re = append(re, e)
+	}
+	sort.Slice(re, func(i, j int) bool {
+		if re[i].l != re[j].l {
+			return re[i].l < re[j].l
+		}
+		return re[i].f < re[j].f
+	})
+	sb.WriteString("]\n\n/-- re-entrant acquisitions (lock, function): a blocking Lock/RLock of a lock that is already held at that point -/\ndef reentrant : List (Nat × Nat) := [\n")
+	for i, e := range re {
+		sep := ","
+		if i == len(re)-1 {
+			sep = ""
+		}
+		fmt.Fprintf(&sb, "  (%d, %d)%s  -- %s again in %s\n", x.sym(e.l), x.sym(e.f), sep, e.l, e.f)
 	}
 	sb.WriteString("]\n\n/- function symbols -/\nnamespace F\n")
 	seen := map[string]bool{}
